@@ -596,7 +596,7 @@ pub fn run_history<V: Visitor>(h: &History, force_fault: bool, v: &mut V) -> Res
         FamId::Ed => go!(ed25519_dalek::SigningKey),
         FamId::CombinedSecp | FamId::CombinedEd => go!(enr::CombinedKey),
         FamId::Var | FamId::Wide => go!(VarKey),
-        FamId::Tiny | FamId::Mid => go!(crate::keys::TinyKey),
+        FamId::Tiny | FamId::Mid | FamId::Nano | FamId::Big => go!(crate::keys::TinyKey),
     }
 }
 
@@ -703,6 +703,6 @@ pub fn run_blind(h: &History, upto: usize, order: u8) -> Result<Option<(Vec<Call
         FamId::Ed => run_blind_typed::<ed25519_dalek::SigningKey>(h, upto, order),
         FamId::CombinedSecp | FamId::CombinedEd => run_blind_typed::<enr::CombinedKey>(h, upto, order),
         FamId::Var | FamId::Wide => run_blind_typed::<VarKey>(h, upto, order),
-        FamId::Tiny | FamId::Mid => run_blind_typed::<crate::keys::TinyKey>(h, upto, order),
+        FamId::Tiny | FamId::Mid | FamId::Nano | FamId::Big => run_blind_typed::<crate::keys::TinyKey>(h, upto, order),
     }
 }
